@@ -1,3 +1,445 @@
-From Snap.Ring Require Import RingModel RingBase RingInv RingProofs.
-Check own_collected. Check own_writer. Check work_same_slot. Check own_sched. Check running_is_current.
-Check order_handed. Check order_complete. Check order_written. Check order_writer_prefix. Check order_writer_final. Check no_deadlock.
+(* C13 -- consequences of the ring invariant: ownership, order, absence of deadlock, termination measure,
+   and the n = 2 deadlock showing that IO_MIN = 3 is needed. *)
+From Coq Require Import Arith List Bool Lia.
+From Snap.Ring Require Import RingModel RingBase RingInv.
+Import ListNotations.
+
+Section Inv.
+Variable P : params.
+Hypothesis Hn : 3 <= pn P.
+Hypothesis HR : 1 <= pR P.
+Hypothesis Hposs : Forall (fun p => p < bmax P) (poss P).
+
+Notation n := (pn P).
+Notation R := (pR P).
+Notation W := (pW P).
+Notation L := (length (poss P)).
+Notation Inv := (RingInv P).
+
+(* ---------------------------------------------------------------------------------------------- *)
+(* ownership *)
+
+(* worker->func of reader w works on slot s (reads from disk into buffer_map[s][...]) *)
+Definition reader_on (st : state) (w s : nat) : Prop := wpcs (rget st w) = PRun /\ widx (rget st w) = s.
+Definition writer_on (st : state) (w s : nat) : Prop := wpcs (wget st w) = PRun /\ widx (wget st w) = s.
+
+(* the caller looks at the task and the buffer of reader w in slot reader_index once io_data_read /
+   io_parity_read has returned it (w left reader_list): the reader has moved to another slot and the task is
+   complete, with the position of the current stripe *)
+Lemma own_collected : forall st w, Inv st -> cpc st = CWork -> w < R -> ~ In w (rlist st) ->
+  widx (rget st w) <> r_idx st /\ get2 (rtask st) (r_idx st) w = fin_t P (cur st).
+Proof.
+  intros st w I C Hw Hin. destruct (ri_readers P st I w Hw). pose proof (ri_caller P st I) as Ic.
+  destruct (co_work P st Ic C) as (HK & Hcur & _).
+  assert (F : next_k st + 1 <= wseq (rget st w) + n) by (apply ro_fresh; right; auto).
+  rewrite ro_idx, (co_r P st Ic). split.
+  - apply mod_window_neq; lia.
+  - rewrite Hcur. replace (next_k st mod n) with ((next_k st - n) mod n).
+    + apply ro_old; lia.
+    + rewrite <- (mod_plus_n (next_k st - n) n) by lia. f_equal. lia.
+Qed.
+
+(* no writer is ever on the slot writer_index (io.c:663 assert), which in the caller's work phase is the slot
+   whose parity buffers the caller computes and which io_writer_sched rewrites *)
+Lemma own_writer : forall st w, Inv st -> w < W -> widx (wget st w) <> w_idx st.
+Proof.
+  intros st w I Hw. destruct (ri_writers P st I w Hw). pose proof (ri_caller P st I) as Ic.
+  rewrite wo_idx, (co_w P st Ic). apply not_eq_sym. apply mod_window_neq; lia.
+Qed.
+
+Lemma work_same_slot : forall st, Inv st -> cpc st = CWork -> 0 < W -> w_idx st = r_idx st.
+Proof.
+  intros st I C HW. pose proof (ri_caller P st I) as Ic. destruct (co_work P st Ic C) as (_ & _ & _ & HM).
+  rewrite (co_w P st Ic), (co_r P st Ic), <- (HM HW). symmetry. apply mod_plus_n. lia.
+Qed.
+
+(* io_reader_sched (io.c:424) rewrites the tasks of slot reader_index only when no reader is on it *)
+Lemma own_sched : forall st st' w, Inv st -> step P st CReadNext = Some st' -> w < R -> widx (rget st w) <> r_idx st.
+Proof.
+  intros st st' w I H Hw. unfold step in H. cbv zeta in H.
+  destruct (is_not_waiting (cwait st)); [|discriminate]. simpl in H.
+  destruct (is_cpc (cpc st) CNext || is_cpc (cpc st) CWork && (W =? 0)) eqn:Gc; [|discriminate]. simpl in H.
+  destruct (rlist st) eqn:Erl; [|discriminate].
+  destruct (ri_readers P st I w Hw). pose proof (ri_caller P st I) as Ic.
+  assert (F : next_k st + 1 <= wseq (rget st w) + n).
+  { apply ro_fresh. apply orb_true_iff in Gc. destruct Gc as [G|G]; [left; apply is_cpc_eq; exact G|].
+    apply andb_true_iff in G. destruct G as [G _]. apply is_cpc_eq in G. right. rewrite Erl. auto. }
+  rewrite ro_idx, (co_r P st Ic). apply mod_window_neq; lia.
+Qed.
+
+(* a Running task is the current task of its worker *)
+Lemma running_is_current : forall st w q p, Inv st -> w < R -> q < next_k st -> next_k st <= q + n ->
+  get2 (rtask st) (q mod n) w = Running p -> q = wseq (rget st w) /\ wpcs (rget st w) = PRun.
+Proof.
+  intros st w q p I Hw Hq Hq' T. destruct (ri_readers P st I w Hw).
+  destruct (lt_eq_lt_dec q (wseq (rget st w))) as [[Q|Q]|Q].
+  - rewrite ro_old in T by lia. unfold fin_t in T. destruct (_ <? _); discriminate.
+  - subst q. split; [reflexivity|]. rewrite ro_cur in T. destruct (wpcs (rget st w)); simpl in T; auto;
+      unfold fin_t in T; destruct (_ <? _); discriminate.
+  - rewrite ro_pending in T by lia. unfold sched in T. destruct (_ <? _); discriminate.
+Qed.
+
+(* ---------------------------------------------------------------------------------------------- *)
+(* order *)
+
+Lemma order_handed : forall st, Inv st -> rev (handed st) = firstn (length (handed st)) (poss P).
+Proof.
+  intros st I. pose proof (ri_caller P st I) as Ic. rewrite (co_handed P st Ic) at 1. rewrite rev_involutive.
+  apply map_pos_at_firstn. apply (co_hlen P st Ic).
+Qed.
+
+Lemma order_complete : forall st, Inv st -> stopped st -> bailed st = false -> rev (handed st) = poss P.
+Proof.
+  intros st I S B. rewrite (order_handed st I). pose proof (ri_caller P st I) as Ic.
+  destruct (co_stop P st Ic S B) as [E _]. rewrite E. apply firstn_all.
+Qed.
+
+Lemma order_written : forall st, Inv st -> map fst (written st) = firstn (M st) (poss P).
+Proof.
+  intros st I. pose proof (ri_caller P st I) as Ic. rewrite (co_written P st Ic).
+  apply map_pos_at_firstn. pose proof (co_hM P st Ic). pose proof (co_hlen P st Ic). lia.
+Qed.
+
+Lemma order_writer_prefix : forall st w, Inv st -> w < W ->
+  rev (get [] (wgot st) w) = nonskip (firstn (wseq (wget st w)) (written st)).
+Proof. intros st w I Hw. apply (wo_got P st w (ri_writers P st I w Hw)). Qed.
+
+Lemma order_writer_final : forall st w, Inv st -> cpc st = CEnd -> w < W ->
+  rev (get [] (wgot st) w) = nonskip (written st) /\ (bailed st = false -> map fst (written st) = poss P).
+Proof.
+  intros st w I C Hw. pose proof (ri_caller P st I) as Ic. destruct (ri_writers P st I w Hw).
+  destruct (co_end P st Ic C) as [_ E]. destruct (wo_exit (E w Hw)) as [_ Ev]. split.
+  - rewrite wo_got, Ev. unfold M. rewrite firstn_all. reflexivity.
+  - intros B. rewrite (order_written st I).
+    destruct (co_stop P st Ic (or_intror (or_intror C)) B) as [_ E2]. rewrite E2 by lia. apply firstn_all.
+Qed.
+
+(* ---------------------------------------------------------------------------------------------- *)
+(* absence of deadlock: in every non-final state satisfying the invariant some thread can take a step that is
+   neither a wait, nor a spurious wake-up, nor the caller giving up *)
+
+Definition is_progress (l : label) : bool :=
+  match l with
+  | RWait _ | WWait _ | CTaskWait _ _ | CParityWait | RSpur _ | WSpur _ | CSpur | CBail => false
+  | _ => true
+  end.
+
+Definition can_progress (st : state) : Prop := exists l st', is_progress l = true /\ step P st l = Some st'.
+
+Lemma reader_run_moves : forall st w, Inv st -> w < R -> wpcs (rget st w) = PRun -> can_progress st.
+Proof.
+  intros st w I Hw Epc. destruct (ri_readers P st I w Hw).
+  exists (REnd w). unfold step. cbv zeta. assert (Hwb : (w <? R) = true) by (apply Nat.ltb_lt; exact Hw). rewrite Hwb, Epc. simpl.
+  rewrite ro_idx, ro_cur, Epc. simpl. unfold run_t. destruct (pos_at P _ <? bmax P); eexists; split; reflexivity.
+Qed.
+
+Lemma reader_pending_moves : forall st w, Inv st -> w < R -> done st = false ->
+  wseq (rget st w) + 2 <= next_k st -> can_progress st.
+Proof.
+  intros st w I Hw Hd Hj. destruct (ri_readers P st I w Hw). pose proof (ri_caller P st I) as Ic.
+  destruct (wpcs (rget st w)) eqn:Epc.
+  - eapply reader_run_moves; eauto.
+  - exists (RTake w). unfold step. cbv zeta. assert (Hwb : (w <? R) = true) by (apply Nat.ltb_lt; exact Hw). rewrite Hwb, Epc, Hd. simpl.
+    rewrite ro_idx, succ_mod by lia.
+    assert (Hne : (wseq (rget st w) + 1) mod n <> r_idx st) by (rewrite (co_r P st Ic); apply mod_window_neq; lia).
+    apply Nat.eqb_neq in Hne. rewrite Hne. rewrite ro_pending by lia. unfold sched.
+    destruct (pos_at P _ <? bmax P); eexists; split; reflexivity.
+  - destruct (ro_blocked eq_refl). lia.
+  - rewrite (ro_exit eq_refl) in Hd. discriminate.
+Qed.
+
+Lemma reader_stop_moves : forall st w, Inv st -> w < R -> done st = true -> wpcs (rget st w) <> PExit -> can_progress st.
+Proof.
+  intros st w I Hw Hd Hne. destruct (ri_readers P st I w Hw).
+  destruct (wpcs (rget st w)) eqn:Epc.
+  - eapply reader_run_moves; eauto.
+  - exists (RExit w). unfold step. cbv zeta. assert (Hwb : (w <? R) = true) by (apply Nat.ltb_lt; exact Hw). rewrite Hwb, Epc, Hd. simpl.
+    eexists; split; reflexivity.
+  - destruct (ro_blocked eq_refl). congruence.
+  - congruence.
+Qed.
+
+Lemma writer_run_moves : forall st w, Inv st -> w < W -> wpcs (wget st w) = PRun -> can_progress st.
+Proof.
+  intros st w I Hw Epc. destruct (ri_writers P st I w Hw). destruct (wo_run Epc) as [Hv Es].
+  exists (WEnd w). unfold step. cbv zeta. assert (Hwb : (w <? W) = true) by (apply Nat.ltb_lt; exact Hw). rewrite Hwb, Epc. simpl.
+  rewrite wo_idx, (widx_prev P Hn HR) by exact Hv. rewrite (wo_cur Hv), Epc. unfold wcur_t. rewrite Es. simpl.
+  eexists; split; reflexivity.
+Qed.
+
+Lemma writer_pending_moves : forall st w, Inv st -> w < W -> wseq (wget st w) < M st -> can_progress st.
+Proof.
+  intros st w I Hw Hv. destruct (ri_writers P st I w Hw). pose proof (ri_caller P st I) as Ic.
+  destruct (wpcs (wget st w)) eqn:Epc.
+  - eapply writer_run_moves; eauto.
+  - exists (WTake w). unfold step. cbv zeta. assert (Hwb : (w <? W) = true) by (apply Nat.ltb_lt; exact Hw). rewrite Hwb, Epc. simpl.
+    rewrite wo_idx, (widx_next P Hn HR).
+    assert (Hne : wseq (wget st w) mod n <> w_idx st) by (rewrite (co_w P st Ic); apply mod_window_neq; lia).
+    apply Nat.eqb_neq in Hne. rewrite Hne. rewrite wo_pending by lia. unfold wsched.
+    destruct (snd (wr_at st (wseq (wget st w)))); eexists; split; reflexivity.
+  - destruct (wo_blocked eq_refl). lia.
+  - destruct (wo_exit eq_refl). lia.
+Qed.
+
+Lemma writer_stop_moves : forall st w, Inv st -> w < W -> done st = true -> wpcs (wget st w) <> PExit -> can_progress st.
+Proof.
+  intros st w I Hw Hd Hne. destruct (ri_writers P st I w Hw). pose proof (ri_caller P st I) as Ic.
+  destruct (Nat.eq_dec (wseq (wget st w)) (M st)) as [Ev|Ev]; [|eapply writer_pending_moves; eauto; lia].
+  destruct (wpcs (wget st w)) eqn:Epc.
+  - eapply writer_run_moves; eauto.
+  - exists (WExit w). unfold step. cbv zeta. assert (Hwb : (w <? W) = true) by (apply Nat.ltb_lt; exact Hw). rewrite Hwb, Epc, Hd. simpl.
+    rewrite wo_idx, (widx_next P Hn HR), Ev, <- (co_w P st Ic), Nat.eqb_refl. simpl. eexists; split; reflexivity.
+  - destruct (wo_blocked eq_refl). congruence.
+  - congruence.
+Qed.
+
+Theorem no_deadlock : forall st, Inv st -> is_final st = false -> can_progress st.
+Proof.
+  intros st I Hf. pose proof (ri_caller P st I) as Ic. unfold is_final in Hf.
+  destruct (cpc st) eqn:C; try discriminate.
+  - (* CNext *)
+    destruct (co_next P st Ic C) as (Erl & Ecw & _).
+    exists CReadNext. unfold step. cbv zeta. rewrite Ecw, C, Erl. simpl.
+    destruct (_ <? bmax P); eexists; split; reflexivity.
+  - (* CWork *)
+    assert (Hd : done st = false).
+    { destruct (done st) eqn:D; [|reflexivity]. apply (co_done P st Ic) in D. destruct D; congruence. }
+    destruct (cwait st) eqn:Ecw.
+    + destruct (rlist st) as [|w1 rl] eqn:Erl.
+      * destruct (Nat.eq_dec W 0) as [W0|W0].
+        -- exists CReadNext. unfold step. cbv zeta. rewrite Ecw, C, Erl, W0. simpl.
+           destruct (_ <? bmax P); eexists; split; reflexivity.
+        -- assert (W0b : (W =? 0) = false) by (apply Nat.eqb_neq; exact W0).
+           destruct (wlist st) as [|w1 wl] eqn:Ewl.
+           ++ exists (CWriteNext false). unfold step. cbv zeta. rewrite Ecw, C, W0b, Erl, Ewl. simpl.
+              rewrite (work_same_slot st I C) by lia. rewrite Nat.eqb_refl. simpl. eexists; split; reflexivity.
+           ++ destruct (wscan_total st ((w_idx st + 1) mod n) (wlist st)) as [N|[w N]].
+              ** intros w Hw. apply own_writer; auto. apply (co_wlist P st Ic). exact Hw.
+              ** assert (Hin : In w1 (wlist st)) by (rewrite Ewl; left; reflexivity).
+                 pose proof (co_wlist P st Ic w1 Hin) as Hw1.
+                 pose proof (wscan_none _ _ _ N w1 Hin) as Hb. rewrite (busy_eq P Hn HR st Ic) in Hb.
+                 destruct (ri_writers P st I w1 Hw1). rewrite wo_idx in Hb.
+                 symmetry in Hb. apply mod_window_eq in Hb; [|lia|lia].
+                 apply writer_pending_moves with (w := w1); auto. lia.
+              ** exists (CParityWrite w). unfold step. cbv zeta. rewrite Ecw, C, Erl. simpl.
+                 rewrite N, Nat.eqb_refl. eexists; split; reflexivity.
+      * destruct (rscan st 0 R) as [w'|] eqn:Es.
+        -- exists (CTaskRead 0 R w'). unfold step. cbv zeta. rewrite Ecw, C. simpl. rewrite Es, Nat.eqb_refl.
+           eexists; split; reflexivity.
+        -- assert (Hin : In w1 (rlist st)) by (rewrite Erl; left; reflexivity).
+           pose proof (co_rlist P st Ic w1 Hin) as Hw1.
+           unfold rscan in Es. pose proof (find_none _ _ Es w1 Hin) as Hp. simpl in Hp.
+           assert (Hr : in_range 0 R w1 = true) by (apply in_range_spec; lia). rewrite Hr in Hp. simpl in Hp.
+           apply negb_false_iff, Nat.eqb_eq in Hp.
+           destruct (ri_readers P st I w1 Hw1). rewrite ro_idx, (co_r P st Ic) in Hp.
+           rewrite <- (mod_plus_n (wseq (rget st w1)) n) in Hp by lia. symmetry in Hp.
+           apply mod_window_eq in Hp; [|lia|lia].
+           apply reader_pending_moves with (w := w1); auto. lia.
+    + destruct (co_wait_r P st Ic base count Ecw) as (_ & (w & Hin & Hr) & Hall).
+      pose proof (Hall w Hin Hr). apply reader_pending_moves with (w := w); auto.
+      * apply (co_rlist P st Ic). exact Hin.
+      * lia.
+    + destruct (co_wait_w P st Ic Ecw) as (_ & _ & Hne & Hall).
+      destruct (wlist st) as [|w wl] eqn:Ewl; [congruence|].
+      assert (Hin : In w (wlist st)) by (rewrite Ewl; left; reflexivity). rewrite <- Ewl in Hall.
+      pose proof (Hall w Hin). apply writer_pending_moves with (w := w); auto.
+      * apply (co_wlist P st Ic). exact Hin.
+      * lia.
+  - (* CStopping *)
+    exists CStop. unfold step. rewrite C. simpl. eexists; split; reflexivity.
+  - (* CJoining *)
+    assert (Hd : done st = true) by (apply (co_done P st Ic); auto).
+    destruct (forallb (fun w => is_pc (wpcs (rget st w)) PExit) (seq 0 R)) eqn:Fr.
+    + destruct (forallb (fun w => is_pc (wpcs (wget st w)) PExit) (seq 0 W)) eqn:Fw.
+      * exists CJoin. unfold step. rewrite C, Fr, Fw. simpl. eexists; split; reflexivity.
+      * apply forallb_seq_false in Fw. destruct Fw as [w [Hw Hp]].
+        apply writer_stop_moves with (w := w); auto. intros E. rewrite E in Hp. discriminate.
+    + apply forallb_seq_false in Fr. destruct Fr as [w [Hw Hp]].
+      apply reader_stop_moves with (w := w); auto. intros E. rewrite E in Hp. discriminate.
+Qed.
+
+
+(* ---------------------------------------------------------------------------------------------- *)
+(* termination measure: a natural number that strictly decreases with every step that is not a wait or a spurious
+   wake-up, and never increases.  With no_deadlock: under weak fairness every run reaches the final state, and
+   the number of non-wait steps of any run is at most mu (init P). *)
+
+Definition pc_w (p : wpc) : nat := match p with PRun => 2 | PStep => 1 | PBlocked => 1 | PExit => 0 end.
+Definition rm (ws : wstate) : nat := 2 * (L + n - 1 - wseq ws) + pc_w (wpcs ws).
+Definition wm (ws : wstate) : nat := 2 * (L - wseq ws) + pc_w (wpcs ws).
+Fixpoint sumf (f : nat -> nat) (k : nat) : nat := match k with 0 => 0 | S k' => sumf f k' + f k' end.
+Definition cm (st : state) : nat :=
+  match cpc st with
+  | CNext => (L + n - next_k st) * (R + W + 3) + 3
+  | CWork => (L + n - next_k st) * (R + W + 3) + length (rlist st) + length (wlist st) + 4
+  | CStopping => 2
+  | CJoining => 1
+  | CEnd => 0
+  end.
+Definition mu (st : state) : nat :=
+  cm st + sumf (fun w => rm (rget st w)) R + sumf (fun w => wm (wget st w)) W.
+
+Lemma sumf_ext : forall f g k, (forall w, w < k -> f w = g w) -> sumf f k = sumf g k.
+Proof. intros f g k. induction k; simpl; intros H; [reflexivity|]. rewrite IHk by (intros; apply H; lia). rewrite H by lia. reflexivity. Qed.
+
+Lemma sumf_upd : forall f g k w, w < k -> (forall w', w' < k -> w' <> w -> g w' = f w') ->
+  sumf g k + f w = sumf f k + g w.
+Proof.
+  intros f g k w. induction k; intros Hw H; [lia|]. simpl.
+  destruct (Nat.eq_dec w k) as [->|N].
+  - rewrite (sumf_ext g f k) by (intros; apply H; lia). lia.
+  - rewrite (H k) by lia. assert (sumf g k + f w = sumf f k + g w) by (apply IHk; [lia|intros; apply H; lia]). lia.
+Qed.
+
+Lemma rm_unblock : forall ws, rm (unblock ws) = rm ws.
+Proof. intros [i [] s]; reflexivity. Qed.
+Lemma wm_unblock : forall ws, wm (unblock ws) = wm ws.
+Proof. intros [i [] s]; reflexivity. Qed.
+
+Lemma mu_upd_reader : forall st w ws' t c, w < R ->
+  mu (upd_reader st (set wdflt (rd st) w ws') t c) + rm (rget st w) = mu st + rm ws'.
+Proof.
+  intros st w ws' t c Hw. unfold mu.
+  assert (E : sumf (fun w0 => rm (rget (upd_reader st (set wdflt (rd st) w ws') t c) w0)) R + rm (rget st w)
+              = sumf (fun w0 => rm (rget st w0)) R + rm ws').
+  { rewrite (sumf_upd (fun w0 => rm (rget st w0)) (fun w0 => rm (rget (upd_reader st (set wdflt (rd st) w ws') t c) w0)) R w Hw).
+    - rewrite rget_upd_eq. reflexivity.
+    - intros w' _ N. unfold rget, upd_reader; simpl. rewrite get_set_neq by auto. reflexivity. }
+  change (cm (upd_reader st (set wdflt (rd st) w ws') t c)) with (cm st).
+  change (sumf (fun w0 => wm (wget (upd_reader st (set wdflt (rd st) w ws') t c) w0)) W) with (sumf (fun w0 => wm (wget st w0)) W).
+  lia.
+Qed.
+
+Lemma mu_upd_writer : forall st w ws' t c g, w < W ->
+  mu (upd_writer st (set wdflt (wr st) w ws') t c g) + wm (wget st w) = mu st + wm ws'.
+Proof.
+  intros st w ws' t c g Hw. unfold mu.
+  assert (E : sumf (fun w0 => wm (wget (upd_writer st (set wdflt (wr st) w ws') t c g) w0)) W + wm (wget st w)
+              = sumf (fun w0 => wm (wget st w0)) W + wm ws').
+  { rewrite (sumf_upd (fun w0 => wm (wget st w0)) (fun w0 => wm (wget (upd_writer st (set wdflt (wr st) w ws') t c g) w0)) W w Hw).
+    - rewrite wget_upd_eq. reflexivity.
+    - intros w' _ N. unfold wget, upd_writer; simpl. rewrite get_set_neq by auto. reflexivity. }
+  change (cm (upd_writer st (set wdflt (wr st) w ws') t c g)) with (cm st).
+  change (sumf (fun w0 => rm (rget (upd_writer st (set wdflt (wr st) w ws') t c g) w0)) R) with (sumf (fun w0 => rm (rget st w0)) R).
+  lia.
+Qed.
+
+Lemma mu_upd_caller : forall st c' cw rl wl b,
+  mu (upd_caller st c' cw rl wl b) + cm st = mu st + cm (upd_caller st c' cw rl wl b).
+Proof. intros. unfold mu. simpl. change (rget (upd_caller st c' cw rl wl b)) with (rget st). change (wget (upd_caller st c' cw rl wl b)) with (wget st). lia. Qed.
+
+Ltac grd H G :=
+  match type of H with
+  | (if negb ?b then None else _) = Some _ => destruct b eqn:G; [cbn [negb] in H|discriminate H]
+  | (if ?b then None else _) = Some _ => destruct b eqn:G; [discriminate H|]
+  end.
+
+Lemma ML_bound : forall st, Inv st -> M st <= L.
+Proof. intros st I. pose proof (ri_caller P st I) as Ic. pose proof (co_hM P st Ic). pose proof (co_hlen P st Ic). lia. Qed.
+
+Theorem mu_step : forall st l st', Inv st -> step P st l = Some st' ->
+  mu st' <= mu st /\ (is_progress l = true -> mu st' < mu st).
+Proof.
+  intros st l st' I H. pose proof (ri_caller P st I) as Ic. pose proof (co_Kmax P st Ic) as HKm.
+  pose proof (ML_bound st I) as HML.
+  destruct l; unfold step in H; cbv zeta in H.
+  - (* RTake *)
+    grd H Gw. grd H Gpc. grd H Gd. grd H Gn. apply Nat.ltb_lt in Gw. apply is_pc_eq in Gpc. apply Nat.eqb_neq in Gn.
+    destruct (ri_readers P st I w Gw).
+    assert (Hj : wseq (rget st w) + 2 <= next_k st).
+    { destruct (Nat.eq_dec (wseq (rget st w) + 1) (next_k st)) as [E|E]; [|lia]. exfalso. apply Gn.
+      rewrite ro_idx, succ_mod, E by lia. symmetry. apply (co_r P st Ic). }
+    destruct (get2 (rtask st) _ w); try discriminate; inversion H; subst st'; clear H;
+      match goal with |- context [upd_reader st (set wdflt (rd st) w ?ws') ?t ?c] =>
+        pose proof (mu_upd_reader st w ws' t c Gw) as E end;
+      unfold rm in E; rewrite Gpc in E; simpl in E; (split; [|intros _]; lia).
+  - (* REnd *)
+    grd H Gw. grd H Gpc. apply Nat.ltb_lt in Gw. apply is_pc_eq in Gpc.
+    destruct (get2 (rtask st) _ w); try discriminate; inversion H; subst st'; clear H;
+      match goal with |- context [upd_reader st (set wdflt (rd st) w ?ws') ?t ?c] =>
+        pose proof (mu_upd_reader st w ws' t c Gw) as E end;
+      unfold rm in E; rewrite Gpc in E; simpl in E; (split; [|intros _]; lia).
+  - (* RWait *)
+    grd H Gw. grd H Gpc. grd H Gd. grd H Gn. apply Nat.ltb_lt in Gw. apply is_pc_eq in Gpc.
+    inversion H; subst st'; clear H.
+    match goal with |- context [upd_reader st (set wdflt (rd st) w ?ws') ?t ?c] =>
+      pose proof (mu_upd_reader st w ws' t c Gw) as E end.
+    unfold rm in E; rewrite Gpc in E; simpl in E. split; [lia|discriminate].
+  - (* RExit *)
+    grd H Gw. grd H Gpc. grd H Gd. apply Nat.ltb_lt in Gw. apply is_pc_eq in Gpc.
+    inversion H; subst st'; clear H.
+    match goal with |- context [upd_reader st (set wdflt (rd st) w ?ws') ?t ?c] =>
+      pose proof (mu_upd_reader st w ws' t c Gw) as E end.
+    unfold rm in E; rewrite Gpc in E; simpl in E. split; [|intros _]; lia.
+  - (* RSpur *)
+    grd H Gw. grd H Gpc. apply Nat.ltb_lt in Gw. apply is_pc_eq in Gpc.
+    inversion H; subst st'; clear H.
+    match goal with |- context [upd_reader st (set wdflt (rd st) w ?ws') ?t ?c] =>
+      pose proof (mu_upd_reader st w ws' t c Gw) as E end.
+    unfold rm in E; rewrite Gpc in E; simpl in E. split; [lia|discriminate].
+  - (* WTake *)
+    grd H Gw. grd H Gpc. grd H Gn. apply Nat.ltb_lt in Gw. apply is_pc_eq in Gpc. apply Nat.eqb_neq in Gn.
+    destruct (ri_writers P st I w Gw).
+    assert (Hv : wseq (wget st w) + 1 <= M st).
+    { destruct (Nat.eq_dec (wseq (wget st w)) (M st)) as [E|E]; [|lia]. exfalso. apply Gn.
+      rewrite wo_idx, (widx_next P Hn HR), E. symmetry. apply (co_w P st Ic). }
+    destruct (get2 (wtask st) _ w); try discriminate; inversion H; subst st'; clear H;
+      match goal with |- context [upd_writer st (set wdflt (wr st) w ?ws') ?t ?c ?g] =>
+        pose proof (mu_upd_writer st w ws' t c g Gw) as E end;
+      unfold wm in E; rewrite Gpc in E; simpl in E; (split; [|intros _]; lia).
+  - (* WEnd *)
+    grd H Gw. grd H Gpc. apply Nat.ltb_lt in Gw. apply is_pc_eq in Gpc.
+    destruct (get2 (wtask st) _ w); try discriminate; inversion H; subst st'; clear H;
+      match goal with |- context [upd_writer st (set wdflt (wr st) w ?ws') ?t ?c ?g] =>
+        pose proof (mu_upd_writer st w ws' t c g Gw) as E end;
+      unfold wm in E; rewrite Gpc in E; simpl in E; (split; [|intros _]; lia).
+  - (* WWait *)
+    grd H Gw. grd H Gpc. grd H Gn. grd H Gd. apply Nat.ltb_lt in Gw. apply is_pc_eq in Gpc.
+    inversion H; subst st'; clear H.
+    match goal with |- context [upd_writer st (set wdflt (wr st) w ?ws') ?t ?c ?g] =>
+      pose proof (mu_upd_writer st w ws' t c g Gw) as E end.
+    unfold wm in E; rewrite Gpc in E; simpl in E. split; [lia|discriminate].
+  - (* WExit *)
+    grd H Gw. grd H Gpc. grd H Gn. grd H Gd. apply Nat.ltb_lt in Gw. apply is_pc_eq in Gpc.
+    inversion H; subst st'; clear H.
+    match goal with |- context [upd_writer st (set wdflt (wr st) w ?ws') ?t ?c ?g] =>
+      pose proof (mu_upd_writer st w ws' t c g Gw) as E end.
+    unfold wm in E; rewrite Gpc in E; simpl in E. split; [|intros _]; lia.
+  - (* WSpur *)
+    grd H Gw. grd H Gpc. apply Nat.ltb_lt in Gw. apply is_pc_eq in Gpc.
+    inversion H; subst st'; clear H.
+    match goal with |- context [upd_writer st (set wdflt (wr st) w ?ws') ?t ?c ?g] =>
+      pose proof (mu_upd_writer st w ws' t c g Gw) as E end.
+    unfold wm in E; rewrite Gpc in E; simpl in E. split; [lia|discriminate].
+  - (* CReadNext *)
+    grd H Gnw. grd H Gc.
+    destruct (rlist st) eqn:Erl; [|discriminate].
+    assert (Hc : cpc st = CNext \/ (cpc st = CWork /\ W = 0)).
+    { apply orb_true_iff in Gc. destruct Gc as [G|G]; [left; apply is_cpc_eq; exact G|].
+      apply andb_true_iff in G. destruct G as [G1 G2]. apply is_cpc_eq in G1. apply Nat.eqb_eq in G2. auto. }
+    assert (Hh : length (handed st) + n = next_k st + 1) by (apply (co_hwork P st Ic); tauto).
+    pose proof (co_hlen P st Ic) as HhL. pose proof (co_wlen P st Ic) as Hwl.
+    assert (Hmul : (L + n - next_k st) * (R + W + 3) = (L + n - S (next_k st)) * (R + W + 3) + (R + W + 3)).
+    { replace (L + n - next_k st) with (S (L + n - S (next_k st))) by lia. simpl. lia. }
+    assert (Hold : (L + n - next_k st) * (R + W + 3) + 3 <= cm st).
+    { unfold cm. destruct Hc as [C|[C _]]; rewrite C; lia. }
+    assert (Hsum : forall c' rl cu hd,
+       mu (mkS ((r_idx st + 1) mod n) (w_idx st) (S (next_k st)) (done st)
+                (setrow (rtask st) (r_idx st) R (sched P (pos_at P (next_k st)))) (wtask st) (map unblock (rd st))
+                (wr st) c' NotWaiting rl (wlist st) cu hd (written st) (wgot st) (bailed st)) + cm st
+       = mu st + cm (mkS ((r_idx st + 1) mod n) (w_idx st) (S (next_k st)) (done st)
+                (setrow (rtask st) (r_idx st) R (sched P (pos_at P (next_k st)))) (wtask st) (map unblock (rd st))
+                (wr st) c' NotWaiting rl (wlist st) cu hd (written st) (wgot st) (bailed st))).
+    { intros. unfold mu.
+      match goal with |- _ + sumf ?f R + sumf ?g W + _ = _ =>
+        rewrite (sumf_ext f (fun w => rm (rget st w)) R)
+          by (intros; unfold rget; cbn [rd]; rewrite get_map_unblock; apply rm_unblock);
+        change (sumf g W) with (sumf (fun w => wm (wget st w)) W) end.
+      lia. }
+    destruct (_ <? bmax P); inversion H; subst st'; clear H;
+      match goal with |- context [mkS _ _ _ _ _ _ _ _ ?c' _ ?rl _ ?cu ?hd _ _ _] => pose proof (Hsum c' rl cu hd) as E end;
+      unfold cm at 2 in E; cbn [cpc rlist wlist next_k] in E; rewrite ?seq_length in E;
+      match type of E with ?m + cm st = _ => set (mm := m) in * end;
+      set (X := (L + n - S (next_k st)) * (R + W + 3)) in *; set (Y := (L + n - next_k st) * (R + W + 3)) in *; clearbody mm X Y.
+
+Show. Abort. End Inv.
